@@ -30,7 +30,7 @@ def _handler_names(h: ast.ExceptHandler) -> list[str]:
     return [ast.unparse(h.type)]
 
 
-def _status_of(h: ast.ExceptHandler):
+def _status_of(h, cls=None, depth=0):
     for n in ast.walk(h):
         if isinstance(n, ast.Return) and isinstance(n.value, ast.Call) and ast.unparse(n.value.func).endswith("GeminiResponse"):
             for kw in n.value.keywords:
@@ -38,6 +38,14 @@ def _status_of(h: ast.ExceptHandler):
                     return _eval_status(kw.value)
             if n.value.args:
                 return _eval_status(n.value.args[0])
+        # `return self._helper(...)`: the response is built by a private method of the class (e.g. a factory for the 43 responses)
+        if (isinstance(n, ast.Return) and isinstance(n.value, ast.Call) and isinstance(n.value.func, ast.Attribute) and cls is not None and depth < 2
+                and ast.unparse(n.value.func.value) in ("self", "cls", cls.name)):
+            helper = next((f for f in cls.body if isinstance(f, (ast.FunctionDef, ast.AsyncFunctionDef)) and f.name == n.value.func.attr), None)
+            if helper is not None:
+                st = _status_of(helper, cls, depth + 1)
+                if st is not None:
+                    return st
     for n in ast.walk(h):
         if isinstance(n, ast.Raise):
             return 40  # re-raised: the server layer answers 40 for a handler that raised
@@ -91,11 +99,12 @@ def extract_proxy() -> dict:
                         status = 40  # nothing catches it: the server layer answers 40
                         for h in tr.handlers:
                             if any(nm in accepted for nm in _handler_names(h)):
-                                status = _status_of(h)
+                                status = _status_of(h, cls)
                                 break
                         out["proxyStatus" + cls_name.capitalize()] = status
         # URL construction: the first f-string assigned to `upstream_url`, the sources of `path` and the query
-        for n in ast.walk(run):
+        # (in `_handle_async` or in a private helper of the class it was moved into)
+        for n in list(ast.walk(run)) + [x for f in cls.body if f is not run for x in ast.walk(f)]:
             if isinstance(n, ast.Assign) and any(ast.unparse(t) == "upstream_url" for t in n.targets) and out["proxyUrlParts"] is None:
                 if isinstance(n.value, ast.JoinedStr):
                     parts = []
